@@ -143,6 +143,10 @@ def check_decomp(col, cfgname, t):
     S_val, S_vec = fdd.SD_svalsvec(Sy)
     col.count()
     bad = None
+    if np.shape(S_val) != (n, n, nl) or np.shape(S_vec) != (n, n, nl):
+        col.violation("fdd.SD_svalsvec/layout", f"SD_svalsvec: tables of shape {np.shape(S_val)} / {np.shape(S_vec)} for a "
+                      f"{(n, n, nl)} spectral matrix; d={sv} perm={act['perm']}", {"config": cfgname, "transition": t, "decomp": True})
+        return
     for k in range(nl):
         vals = np.array([S_val[i, i, k] for i in range(n)])
         exp = np.array(out["vals"][k], dtype=float)
